@@ -18,6 +18,7 @@ import vlib, shimlib
 from shimlib import ERRNO
 
 GD_E_UNCLEAN_DB = -27
+K_DCLOSE = "double-fault/temp-write-or-read-error-then-temp-close-failure/debris"
 K_OOPREAD = "oop-write/read-through-same-handle-then-close/data-loss"
 OPNAME = {"enc": "alter_encoding", "end": "alter_endianness", "off": "alter_frameoffset", "ren": "rename",
           "mov": "move", "del": "delete", "typ": "alter_raw", "put": "putdata"}
@@ -115,7 +116,7 @@ def main():
         "reads of the old data file are not part of the model (they do not change the filesystem); their failures are judged by the property text only",
     ]
     chk.assumptions += [
-        "single-fault schedules; errno in {ENOSPC, EIO, EACCES, EMFILE}; plus a short write (half of the bytes transferred) at every write call",
+        "single-fault schedules enumerated (double-fault schedules sampled and judged by the property text only); errno in {ENOSPC, EIO, EACCES, EMFILE}; plus a short write (half of the bytes transferred) at every write call",
         "GD_VERIF_BUFFER_SIZE=64 (hook H1) so that every conversion needs several read/write calls",
         "GD_E_UNCLEAN_DB outcomes are exempt from the no-debris clause, as the property says",
     ]
@@ -384,7 +385,10 @@ def main():
         chk.cov["evaluations"] += 1
         counts["snapshots" if what == "snapshot" else "kill_points"] += 1
         m = model.get(sc.sid)
-        if m and what == "snapshot" and k != "end":
+        fmt_renames = [c.idx for c in sc.calls if c.name.startswith("rename") and c.p2.split("/")[-1].startswith("format") and c.ok]
+        if m and what == "snapshot" and k != "end" and not (len(fmt_renames) > 1 and fmt_renames[0] < k <= fmt_renames[-1]):
+            # (between the renames of several format files of one metaflush the model has a single flush step: those
+            #  states belong to C12's prefix shape and, for this property, to the commit-to-metaflush window)
             j = sum(1 for ix in sc.idxs if ix < k)
             if j in m["P"] and bool(m["P"][j][0]) != okv:
                 r = dict(sc.desc()); r.update({"kind": "model-vs-impl", "correspondence": "C14 consistency of (metadata, data) per prefix", "crash_point": k, "model_prefix": j})
@@ -460,6 +464,65 @@ def main():
             else:
                 spec_fail(sc, coarse(opn, call.name, "success-but-not-new"), "%s with %s at call %d (%s %s): op ret 0, close %s, but a fresh open does not see the new data" % (
                     sc.ops, en, k, call.name, call.p1, h["close"]), dict(extra, seen=v[:1200]))
+
+    # ---------------------------------------------------------------- double faults (sampled; judged by the property text only)
+    def dfault_job(a):
+        sc, k1, k2, e1, e2, uniq = a
+        w = sc.work("d%d" % uniq)
+        logp = w + ".log"
+        rc, out = shimlib.run_shim(shim, w, [exe, "run", os.path.join(w, "df")] + sc.ops, log=logp,
+                                   fail=[(k1, ERRNO[e1]), (k2, ERRNO[e2])], timeout=20)
+        h = parse_run(out)
+        tr = shimlib.tree(os.path.join(w, "df"))
+        v = view(w)
+        outside = outside_state(w)
+        calls = shimlib.read_log(logp)
+        shutil.rmtree(w, ignore_errors=True)
+        try:
+            os.unlink(logp)
+        except OSError:
+            pass
+        return sc, rc, h, tr, v, outside, out, [c for c in calls if c.note == "INJECT"]
+    djobs = []
+    for sc in good:
+        if sc.n < 4:
+            continue
+        for _ in range(8 if not chk.thorough else 40):
+            k1 = rng.randrange(sc.n - 1)
+            djobs.append((sc, k1, rng.randrange(k1 + 1, sc.n + 2), rng.choice(errnos), rng.choice(errnos), len(djobs)))
+    # deterministic witness of the listed double-fault finding: write and close of the same temporary file fail
+    for sc in good:
+        if sc.ops == ["typ:a:0x24:2"]:
+            kw = next((c.idx for c in sc.calls if c.name == "write" and is_data_tmp(c.p1)), None)
+            kc = next((c.idx for c in sc.calls if c.name == "close" and is_data_tmp(c.p1)), None)
+            if kw is not None and kc is not None:
+                djobs.append((sc, kw, kc, "EIO", "EIO", len(djobs)))
+    for sc, rc, h, tr, v, outside, raw, failed in pool.map(dfault_job, djobs):
+        counts["double_fault_runs"] = counts.get("double_fault_runs", 0) + 1
+        chk.cov["evaluations"] += 1
+        opn = sc.op.split(":")[0]
+        extra = {"failed_calls": [repr(c) for c in failed], "output": raw[-400:]}
+        if rc != 0 or not h["ops"]:
+            spec_fail(sc, "%s/double-fault/crash" % opn, "%s with failing calls %s: the process died or hung (rc %d): %s" % (sc.ops, [repr(c) for c in failed], rc, raw[-200:]), extra)
+            continue
+        o = h["ops"][0]
+        nontriv.add((sc.sid, "double", tuple(c.name for c in failed), o["ret"], o["invalid"], v == sc.old_view, v == sc.new_view))
+        if outside != sc.outside:
+            spec_fail(sc, "%s/outside-changed" % opn, "%s with failing calls %s: a file outside the dirfile changed" % (sc.ops, [repr(c) for c in failed]), extra)
+        lost = file_level(sc, tr)
+        if lost:
+            spec_fail(sc, "%s/double-fault/data-copy-lost" % opn, "%s with failing calls %s: no complete copy of the data of %s is left" % (sc.ops, [repr(c) for c in failed], lost), extra)
+        if o["ret"] == GD_E_UNCLEAN_DB:
+            if not any((c.name.startswith("rename") or c.name.startswith("unlink")) and not c.p2.split("/")[-1].startswith("format") for c in failed):
+                spec_fail(sc, "%s/double-fault/unclean-outside-commit" % opn, "%s: GD_E_UNCLEAN_DB although no rename/unlink of a data file failed (%s)" % (sc.ops, [repr(c) for c in failed]), extra)
+        elif o["ret"] != 0:
+            unl = any(c.name.startswith("unlink") for c in failed)
+            if v != sc.old_view:
+                spec_fail(sc, "%s/double-fault/old-data-not-intact" % opn, "%s with failing calls %s: ordinary error %d but a fresh open no longer sees the old data" % (sc.ops, [repr(c) for c in failed], o["ret"]), dict(extra, seen=v[:800]))
+            if sorted(r for r in tr if is_data_tmp(r)) and not unl:
+                spec_fail(sc, K_DCLOSE if any(c.name == "close" and is_data_tmp(c.p1) for c in failed) else "%s/double-fault/debris" % opn, "%s with failing calls %s: error %d and temporary files left although no unlink failed" % (sc.ops, [repr(c) for c in failed], o["ret"]), extra)
+        elif h["close"] == 0 and v != sc.new_view:
+            spec_fail(sc, "%s/double-fault/success-but-not-new" % opn, "%s with failing calls %s: op and close report success but a fresh open does not see the new data" % (sc.ops, [repr(c) for c in failed]), dict(extra, seen=v[:800]))
 
     # ---------------------------------------------------------------- known: out-of-place write, read through the same handle, close
     w = os.path.join(base, "oopread"); os.makedirs(w); make_template(os.path.join(w, "p"), "gzip")
